@@ -1,0 +1,48 @@
+//! Verification hooks (compiled only with `--cfg inputlayer_verif`).
+//!
+//! `sched_point(label)` marks a lock / IO boundary in the storage and persist layers.
+//! It does nothing unless the *calling thread* has registered a controller with
+//! [`enter`]; registered threads report the label to their controller, which may park
+//! the thread (schedule exploration) or merely observe (e.g. copy the data directory
+//! to emulate a crash at that point). Threads that never call [`enter`] (server
+//! threads, timely workers, rayon workers) are never affected.
+//!
+//! The registration is thread-local, so several controlled executions (each with its
+//! own engine and its own controller) can run side by side in one process.
+
+use std::cell::RefCell;
+use std::sync::Arc;
+
+/// Receives every scheduling point reached by a registered thread.
+pub trait SchedController: Send + Sync {
+    /// Called on the registered thread itself; returning resumes the thread.
+    fn at(&self, thread: usize, label: &'static str);
+}
+
+thread_local! {
+    static CURRENT: RefCell<Option<(Arc<dyn SchedController>, usize)>> = const { RefCell::new(None) };
+}
+
+/// Register the calling thread as controlled thread number `thread` of `controller`.
+pub fn enter(controller: Arc<dyn SchedController>, thread: usize) {
+    CURRENT.with(|c| *c.borrow_mut() = Some((controller, thread)));
+}
+
+/// Unregister the calling thread.
+pub fn leave() {
+    CURRENT.with(|c| *c.borrow_mut() = None);
+}
+
+/// The controlled-thread number of the calling thread, if it is registered.
+pub fn current_thread() -> Option<usize> {
+    CURRENT.with(|c| c.borrow().as_ref().map(|(_, t)| *t))
+}
+
+/// A scheduling point. No-op for unregistered threads.
+#[inline]
+pub fn sched_point(label: &'static str) {
+    let cur = CURRENT.with(|c| c.borrow().as_ref().map(|(ctl, t)| (Arc::clone(ctl), *t)));
+    if let Some((ctl, thread)) = cur {
+        ctl.at(thread, label);
+    }
+}
